@@ -845,8 +845,58 @@ func (p *Proc) checkFrame(st *State, n ast.Node) {
 		p.oblige(st, "frame", "frame[havoc]", tags, TFalse, p.where(n))
 		return
 	}
+	for _, fg := range p.frameGoals(st, allowed, whole, nil) {
+		p.oblige(st, "frame", fmt.Sprintf("frame[%s]", fg.key), tags, fg.goal, p.where(n))
+	}
+}
+
+type frameGoal struct {
+	key  string
+	goal *Term
+}
+
+// frameSets evaluates the assigns clauses of the procedure's contract in the entry state.
+// ok is false when there is no frame to prove (no clause, noframe, or assigns *).
+func (p *Proc) frameSets() (allowed map[string][]*Term, whole map[string]bool, tags []string, ok bool) {
+	if p.contract == nil {
+		return
+	}
+	cls := p.contract.ByKind("assigns")
+	if len(cls) == 0 || len(p.contract.ByKind("noframe")) > 0 {
+		return
+	}
+	allowed = map[string][]*Term{}
+	whole = map[string]bool{}
+	for _, cl := range cls {
+		if cl.Arg == "*" {
+			return nil, nil, nil, false
+		}
+		tags = append(tags, cl.Tags...)
+		for _, e := range cl.Exprs {
+			ec := p.exitEc(p.entry.clone())
+			ec.where = cl.Where
+			for _, l := range p.evalLoc(ec, e) {
+				if l.ref == nil {
+					whole[l.key] = true
+				} else {
+					allowed[l.key] = append(allowed[l.key], l.ref)
+				}
+			}
+		}
+	}
+	return allowed, whole, tags, true
+}
+
+// frameGoals lists, for every heap array that differs from its entry value and is not wholly
+// assignable, the formula "unchanged outside the assignable locations". With only != nil the
+// list is restricted to those keys.
+func (p *Proc) frameGoals(st *State, allowed map[string][]*Term, whole map[string]bool, only map[string]bool) []frameGoal {
+	var out []frameGoal
 	al0 := p.heapGet(p.entry, "AL:", ArrSort(SInt, SBool))
 	for _, k := range sortedKeys(st.heap) {
+		if only != nil && !only[k] {
+			continue
+		}
 		if k == "AL:" || p.wholePrefix(whole, k) || whole[k] || strings.HasPrefix(k, "IF:") || strings.HasPrefix(k, "G:$") {
 			continue
 		}
@@ -856,7 +906,7 @@ func (p *Proc) checkFrame(st *State, n ast.Node) {
 			continue
 		}
 		if strings.HasPrefix(k, "G:") {
-			p.oblige(st, "frame", fmt.Sprintf("frame[%s]", k), tags, Eq(now, was), p.where(n))
+			out = append(out, frameGoal{k, Eq(now, was)})
 			continue
 		}
 		var conds []string
@@ -865,8 +915,9 @@ func (p *Proc) checkFrame(st *State, n ast.Node) {
 			conds = append(conds, fmt.Sprintf("(not (= o!f %s))", r.S))
 		}
 		g := T(fmt.Sprintf("(forall ((o!f Int)) (=> (and %s) (= (select %s o!f) (select %s o!f))))", strings.Join(conds, " "), now.S, was.S), SBool)
-		p.oblige(st, "frame", fmt.Sprintf("frame[%s]", k), tags, g, p.where(n))
+		out = append(out, frameGoal{k, g})
 	}
+	return out
 }
 
 // ---------------------------------------------------------------------------
